@@ -33,6 +33,7 @@ TOUCHED=$(grep '^+++ b/' "$SEED/patch.diff" | sed 's#+++ b/##' | xargs -n1 dirna
 go test -vet=off -count=1 -timeout 1200s $TOUCHED >"$LOG" 2>&1 && PKG=pass || PKG=FAIL
 fi
 echo "SEED $SEED: demo-on-clean=$CLEAN build=$BUILD demo-with-patch=$MUT existing-tests($TOUCHED)=$PKG"
+[ "${NOCHECK:-0}" = 1 ] && exit 0
 for P in "$@"; do
   OUT=$(cd /verif && ./bin/gocv check --repo "$WT" --prop "$P" --tier quick --no-evidence 2>&1)
   RC=$?
